@@ -189,6 +189,8 @@ func vFamilies(thorough bool) []map[string][]vRule {
 		map[string][]vRule{"Root": {id, {"Open", `\(`, "push:S\x7f\a\U000e0041"}}, "S\x7f\a\U000e0041": {cl, ws, inc("Root")}},
 		map[string][]vRule{"Root": {{"returnToParent", `r+`, ""}, id, ws}},
 		map[string][]vRule{"Root": {id, {"returnToParent", `\(`, "push:A"}}, "A": {cl, {"", "", "return"}}},
+		// names and patterns that begin or end with white space
+		map[string][]vRule{"Root": {id, {"Sp", " +", ""}, {"Tab", "\t", ""}, {" Lead", "x ", ""}, {"Nb", "\u00a0", ""}}},
 		// state names that look like action kinds, and the empty state name
 		map[string][]vRule{"Root": {id, {"Open", `\(`, "push:pop"}}, "pop": {cl, ws}},
 		map[string][]vRule{"Root": {id, inc("pop")}, "pop": {ws, {"Open", `\(`, "push:push"}}, "push": {cl, inc("include")}, "include": {under}},
@@ -261,7 +263,7 @@ func newNoPanic(rules Rules) (def *StatefulDefinition, err error, panicked inter
 // matches start at offset 0 (the rulesOK invariant Next's proof assumes: C03, C04, C07).
 func TestVerif_C03C04C07_New(t *testing.T) {
 	res := &verifResult{Check: "lexer.New", Property: "C03 C04 C07", Exhaustive: true,
-		Bound: "all rule maps with states Root (1-2 rules over the full alphabet), optional A (0 rules, or 1-3 rules over {Ident, ws, Close/pop, return}; thorough: also 1-2 over the full alphabet, plus optional B with 1 rule) over the rule alphabet of vAlphabet (plain / lower-case / underscore-initial names, metacharacter and unbalanced patterns, push, pop, include, return; a non-ASCII lower-case name; a rule named EOF; thorough adds unknown targets and digit-initial names); plus 6 rule maps with chains of includes over 3-4 states and 3 with state names needing JSON escapes / a user rule named returnToParent and 4 with states named pop, push, include, return or the empty string; include cycles excluded",
+		Bound: "all rule maps with states Root (1-2 rules over the full alphabet), optional A (0 rules, or 1-3 rules over {Ident, ws, Close/pop, return}; thorough: also 1-2 over the full alphabet, plus optional B with 1 rule) over the rule alphabet of vAlphabet (plain / lower-case / underscore-initial names, metacharacter and unbalanced patterns, push, pop, include, return; a non-ASCII lower-case name; a rule named EOF; thorough adds unknown targets and digit-initial names); plus 6 rule maps with chains of includes over 3-4 states and 3 with state names needing JSON escapes / a user rule named returnToParent and 4 with states named pop, push, include, return or the empty string, 1 with names and patterns that begin or end with white space; include cycles excluded",
 		Rule: "distinct rule maps; non-trivial = accepted by New and containing an action, include or return"}
 	seen := map[string]bool{}
 	for _, states := range vFamilies(verifThorough()) {
@@ -397,7 +399,7 @@ func TestVerif_C16_JSON(t *testing.T) {
 	res := &verifResult{Check: "lexer JSON round trip", Property: "C16", Exhaustive: true,
 		Bound: "the rule maps of TestVerif_C03C04C07_New that New accepts; the caller's rule map is edited after New (a pattern changed, a rule prepended to every state, a state added) before the definition is marshalled; token streams compared on 16 inputs up to 7 bytes",
 		Rule: "distinct accepted rule maps; non-trivial = contains an action, include or return"}
-	inputs := []string{"", "a", "ab c", "(a)", "((a))b", ")", "a_b", "b", "xxb", "< a", "\"q\"", "é1", "rr a", "a (a) r", "a;b", "q w"}
+	inputs := []string{"", "a", "ab c", "(a)", "((a))b", ")", "a_b", "b", "xxb", "< a", "\"q\"", "é1", "rr a", "a (a) r", "a;b", "q w", "a  x \t", "x a"}
 	seen := map[string]bool{}
 	for _, states := range vFamilies(verifThorough()) {
 		if includeCycle(states) {
